@@ -69,20 +69,20 @@ Qed.
 (* ---------------------------------------------------------------- insert_doc *)
 Lemma insert_doc_ok c d c' id :
   noTTL c -> insert_doc c d = (c', Ok id) ->
-  exists fs1, docs c' = docs c ++ [(id, patch (VDoc fs1))] /\ assoc "_id" fs1 = Some id /\
-              store_get id (docs c) = None /\ idx c' = idx c.
+  exists fs1 i0, docs c' = docs c ++ [(id, patch (VDoc fs1))] /\ assoc "_id" fs1 = Some i0 /\
+              id = patch i0 /\ store_get id (docs c) = None /\ idx c' = idx c.
 Proof.
   intros HT H.
   destruct (is_doc d) eqn:Hd; [|rewrite insert_doc_nondoc in H by exact Hd; discriminate].
   destruct d; try discriminate Hd. clear Hd.
   unfold insert_doc in H.
   destruct (assoc "_id" fs) as [i|] eqn:Hid; cbv beta iota zeta in H.
-  - destruct (negb (id_modelled i)); [destruct i; discriminate|].
+  - destruct (negb (id_modelled (patch i))); [destruct (patch i); discriminate|].
     rewrite (expire_noTTL c HT) in H.
-    destruct (store_get i (docs c)) eqn:Hget; [discriminate|].
+    destruct (store_get (patch i) (docs c)) eqn:Hget; [discriminate|].
     destruct (ensure_uniques _ _) as [touched|e] in H.
     + rewrite expire_if_noTTL in H by exact HT.
-      inversion H; subst. exists fs. cbn [docs with_docs idx]. auto.
+      inversion H; subst. exists fs, i. cbn [docs with_docs idx]. auto.
     + destruct (expire _) in H; discriminate.
   - set (c0 := mkColl (docs c) (idx c) (forced c) (next_oid c + 1) (now c) (odocs c)) in *.
     assert (HT0 : noTTL c0) by exact HT.
@@ -91,7 +91,7 @@ Proof.
     destruct (store_get (VOid (next_oid c)) (docs c0)) eqn:Hget; [discriminate|].
     destruct (ensure_uniques _ _) as [touched|e] in H.
     + rewrite expire_if_noTTL in H by exact HT0.
-      inversion H; subst. exists (fs ++ [("_id", VOid (next_oid c))]).
+      inversion H; subst. exists (fs ++ [("_id", VOid (next_oid c))]), (VOid (next_oid c)).
       cbn [docs with_docs idx c0]. repeat split; auto. apply assoc_app_none. exact Hid.
     + destruct (expire _) in H; discriminate.
 Qed.
@@ -163,7 +163,7 @@ Proof.
       destruct (ensure_uniques c1 d') as [touched|e].
       * rewrite (expire_if_noTTL touched c1 HT1) in H.
         apply (Hfin c1 HT1 Hm1 eq_refl (md + 1) H).
-      * destruct e; try discriminate. destruct (expire c1); discriminate.
+      * destruct e; try discriminate; destruct (expire c1); discriminate.
 Qed.
 
 (* ---------------------------------------------------------------- update with upsert *)
@@ -178,10 +178,10 @@ Proof.
 Qed.
 
 Inductive upsert_outcome (c c' : coll) (f : value) (v : value) : Prop :=
-| UpsInserted (id : value) (fs1 : list (string * value)) :
+| UpsInserted (id i0 : value) (fs1 : list (string * value)) :
     scan (patch f) (docs c) = Ok [] ->
     docs c' = docs c ++ [(id, patch (VDoc fs1))] ->
-    assoc "_id" fs1 = Some id ->
+    assoc "_id" fs1 = Some i0 -> id = patch i0 ->
     store_get id (docs c) = None ->
     v = update_result 1 0 (Some id) ->
     upsert_outcome c c' f v
@@ -227,11 +227,12 @@ Proof.
     destruct (insert_doc c3 d') as [c4 ir] eqn:Hins.
     destruct ir as [new_id|e]; [|discriminate].
     inversion H; subst.
-    destruct (insert_doc_ok _ _ _ _ HT3 Hins) as (fs1 & Hdocs & Hid & Hget & _).
-    eapply UpsInserted with (id := new_id) (fs1 := fs1); try reflexivity.
+    destruct (insert_doc_ok _ _ _ _ HT3 Hins) as (fs1 & i0 & Hdocs & Hid & Hpi & Hget & _).
+    eapply UpsInserted with (id := new_id) (i0 := i0) (fs1 := fs1); try reflexivity.
     + rewrite Hpf; exact Hscan.
     + cbn [docs]. rewrite Hdocs, Hd3. reflexivity.
     + exact Hid.
+    + exact Hpi.
     + rewrite <- Hd3. exact Hget.
   - (* something matches *)
     destruct (update_loop_inv _ _ _ _ _ _ _ _ _ _ HT (keys_self_present _ HK) Hloop)
@@ -320,13 +321,6 @@ Definition has_ttl (info : value) : bool :=
                                   | Some _ => true | None => false end) fs
   | _ => false end.
 
-Definition stable_reason (r : res value) : Z :=
-  match r with
-  | Ok v => match get_field "upserted_id" v with
-            | Some u => if value_eqb (patch u) u then 0 else 8
-            | None => 0 end
-  | Err _ => 0 end.
-
 Definition c13_step_reasons (o : op) (r : res value) (before after : list (value * value))
            (info : value) : Z :=
   if match o with OUpdate _ _ _ true | OReplace _ _ true => true | _ => false end then
@@ -334,7 +328,6 @@ Definition c13_step_reasons (o : op) (r : res value) (before after : list (value
     + (if forallb (fun kd => py_eq (fst kd) (fst kd)) before then 0 else 2)
     + (if existsb (fun kd => is_null (fst kd)) after
           && negb (existsb (fun kd => is_null (fst kd)) before) then 4 else 0)
-    + stable_reason r
   else 0.
 
 Fixpoint c13_go (ops : list op) (os : list obs) (before : list (value * value)) (info : value)
@@ -348,17 +341,9 @@ Fixpoint c13_go (ops : list op) (os : list obs) (before : list (value * value)) 
 Lemma c13_reasons_go ops os : c13_reasons ops os = c13_go ops os [] (VDoc []).
 Proof. reflexivity. Qed.
 
-Lemma stable_reason_nonneg r : 0 <= stable_reason r.
-Proof.
-  unfold stable_reason. destruct r as [v|e]; [|lia].
-  destruct (get_field "upserted_id" v) as [u|]; [|lia].
-  destruct (value_eqb (patch u) u); lia.
-Qed.
-
-Lemma reasons_zero (a b c : bool) (d : Z) :
-  0 <= d ->
-  (if a then 1 else 0) + (if b then 0 else 2) + (if c then 4 else 0) + d = 0 ->
-  a = false /\ b = true /\ c = false /\ d = 0.
+Lemma reasons_zero (a b c : bool) :
+  (if a then 1 else 0) + (if b then 0 else 2) + (if c then 4 else 0) = 0 ->
+  a = false /\ b = true /\ c = false.
 Proof. destruct a, b, c; intros; repeat split; lia. Qed.
 
 Definition info_of (c : coll) : value :=
@@ -395,11 +380,10 @@ Lemma upsert_pred c c' f v info now :
   upsert_outcome c c' f v ->
   existsb (fun kd : value * value => is_null (fst kd)) (docs c')
     && negb (existsb (fun kd : value * value => is_null (fst kd)) (docs c)) = false ->
-  stable_reason (Ok v) = 0 ->
   c13w_upsert_ok (mkCtx (docs c) info now) f (Ok v) (docs c') = true.
 Proof.
-  intros Hout Hnull Hst. unfold c13w_upsert_ok, any_match. cbn [x_store].
-  destruct Hout as [id fs1 Hscan Hdocs Hid Hget Hv | r m md Hscan Hne Hlen Hv | e Hscan];
+  intros Hout Hnull. unfold c13w_upsert_ok, any_match. cbn [x_store].
+  destruct Hout as [id i0 fs1 Hscan Hdocs Hid Hpi Hget Hv | r m md Hscan Hne Hlen Hv | e Hscan];
     rewrite Hscan; [| |reflexivity].
   - subst v. rewrite Hdocs in *.
     rewrite length_app1, firstn_app1, Nat.eqb_refl, store_eqb_refl, last_last.
@@ -409,10 +393,10 @@ Proof.
       destruct (existsb (fun kd : value * value => is_null (fst kd)) (docs c)) eqn:Hb.
       - destruct id; try discriminate Hn. exact (store_get_null _ Hb Hget).
       - discriminate Hnull. }
-    unfold stable_reason in Hst. unfold update_result in *. simpl get_field in *.
+    unfold update_result in *. simpl get_field in *.
     rewrite Hn. cbn [negb andb opt_value_eqb value_eqb Z.eqb].
-    rewrite doc_id_patch, Hid. cbn [option_map opt_value_eqb]. rewrite ?Hn. cbn [negb andb].
-    cbv beta iota in Hst. destruct (value_eqb (patch id) id); [reflexivity|discriminate Hst].
+    rewrite doc_id_patch, Hid. cbn [option_map opt_value_eqb]. rewrite <- Hpi, ?Hn. cbn [negb andb].
+    apply value_eqb_refl.
   - subst v. destruct r as [|x r]; [congruence|].
     rewrite Hlen, Nat.eqb_refl. reflexivity.
 Qed.
@@ -430,8 +414,8 @@ Proof.
                            (snd (update pre5 c f u multi true))
                            (docs (fst (update pre5 c f u multi true))) = true).
   { intros f u multi Hr. unfold c13_step_reasons in Hr.
-    apply reasons_zero in Hr; [|apply stable_reason_nonneg].
-    destruct Hr as (Httl & Hself & Hnull & Hst).
+    apply reasons_zero in Hr.
+    destruct Hr as (Httl & Hself & Hnull).
     destruct (update pre5 c f u multi true) as [c' [v|e]] eqn:Hu; [|reflexivity].
     cbn [fst snd] in *.
     apply upsert_pred; auto.
